@@ -28,6 +28,11 @@ def run(tier):
         c.sc, c.profile, c.mode, c.seed = sc, "registry", ("loop" if i % 2 else "dispatch"), s
         cases.append(c)
 
+    for k in range(16 if tier == "quick" else 400):
+        c = cc.Case()
+        c.sc, c.profile, c.mode, c.seed = gen.gen_registry_last_token(seed * 1000 + k), "registry_last_token", ("loop" if k % 2 else "dispatch"), seed * 1000 + k
+        cases.append(c)
+
     def oracle(case):
         return model_registry.check_c09(case, stats)
 
